@@ -22,10 +22,10 @@ Definition fresh_ok (fresh : cmodel) : Prop :=
   names_ok (keys fresh) /\ forall fn lines, slookup fn fresh = Some lines -> wf_fresh_file lines = true.
 
 Lemma wf_fresh_file_inv lines : wf_fresh_file lines = true ->
-  lines_okb lines = true /\ parse_items lines = Some (items_of lines) /\ wfb (items_of lines) = true.
+  items_okb (items_of lines) = true /\ parse_items lines = Some (items_of lines) /\ wfb (items_of lines) = true.
 Proof.
-  unfold wf_fresh_file, items_of. intros H. apply andb_prop in H as [H1 H2].
-  destruct (parse_items lines) as [its|]; [|discriminate]. auto.
+  unfold wf_fresh_file, items_of. intros H.
+  destruct (parse_items lines) as [its|]; [|discriminate]. apply andb_prop in H as [H1 H2]. auto.
 Qed.
 
 Lemma In_keys_lookup {V} k (m : list (string * V)) : In k (keys m) -> exists v, slookup k m = Some v.
@@ -193,7 +193,6 @@ Proof.
     destruct (wf_new_file_inv lines1 (Hwf1 fn lines1 Hl1)) as (Hp & Hf).
     rewrite (regen_file_evolution (join outdir fn) (U fn) (items_of lines0) lines1 (items_of lines1)); try assumption.
     + reflexivity.
-    + apply parse_items_flatten in Hb. rewrite Hb. assumption.
     + apply HU.
   - intros k Hk Hlost. unfold r, regen. rewrite createoutput_lookup.
     rewrite preserve_files_other by assumption. reflexivity.
@@ -212,7 +211,7 @@ Definition lost_lines (path : string) (u : string -> list string) (its its' : li
 
 Lemma used_keys_spec_s (tg : list (string * list string)) its' k :
   In k (used_keys String.eqb kof tg its') <-> In k (pair_keys kof its') /\ In k (keys tg).
-Proof. exact (used_keys_spec String.eqb eqb_spec_str tab4 is_tag kof sub_of kpfx nl nl "" tg its' k). Qed.
+Proof. exact (used_keys_spec String.eqb eqb_spec_str tab4 is_tag kof sub_of kpfx vis nl nl "" tg its' k). Qed.
 
 Lemma memk_used_keys (tg : list (string * list string)) its' k :
   In k (keys tg) ->
@@ -228,7 +227,7 @@ Proof.
 Qed.
 
 Theorem lost_complete path (u : string -> list string) its fresh' its' :
-  wfb its = true -> lines_okb (flatten its) = true -> (forall k, block_ok (u k) = true) ->
+  wfb its = true -> items_okb its = true -> (forall k, block_ok (u k) = true) ->
   parse_items fresh' = Some its' -> Forall (wf_fresh_item kof kpfx) its' ->
   snd (regen_file path fresh' (on_disk u its)) = lost_lines path u its its'.
 Proof.
@@ -237,7 +236,7 @@ Proof.
   apply parse_items_flatten in Hp. subst fresh'.
   destruct (user_ok_blocks u Hu) as [Huo HT].
   unfold regen1.
-  rewrite (regen_evolution String.eqb eqb_spec_str tab4 is_tag kof sub_of kpfx nl nl (nl path) (nl lost_sep)
+  rewrite (regen_evolution String.eqb eqb_spec_str tab4 is_tag kof sub_of kpfx vis nl nl (nl path) (nl lost_sep)
              (fun k => map tab4 (u k)) its its' "" (wfb_wf its Hwf) Huo Hwf' HT).
   cbn [snd]. unfold lost_lines. f_equal.
   unfold collected.
@@ -296,7 +295,7 @@ Proof.
 Qed.
 
 Lemma regen_file_iterated n path (u : string -> list string) fresh its :
-  parse_items fresh = Some its -> wfb its = true -> lines_okb fresh = true ->
+  parse_items fresh = Some its -> wfb its = true -> items_okb its = true ->
   (forall k, block_ok (u k) = true) ->
   Nat.iter n (fun d => fst (regen_file path fresh d)) (on_disk u its) = on_disk u its.
 Proof.
@@ -307,7 +306,7 @@ Proof.
 Qed.
 
 Lemma chain_step_shape path (u : string -> list string) its fresh' its' :
-  wfb its = true -> lines_okb (flatten its) = true -> (forall k, block_ok (u k) = true) ->
+  wfb its = true -> items_okb its = true -> (forall k, block_ok (u k) = true) ->
   parse_items fresh' = Some its' -> Forall (wf_fresh_item kof kpfx) its' ->
   exists u', (forall k, block_ok (u' k) = true) /\
              fst (regen_file path fresh' (on_disk u its)) = on_disk u' its' /\
